@@ -195,7 +195,28 @@ class C13:
         bad_line = main.count("\n") + 2
         ic = s.add("parse_buf", 3, hx(main + "\nzz_no_such_option = 1\n"))
         # E: an error at the end of a file that itself included a deeper file (position after the nested include returned)
-        inter = [n for n in names if "include(" in files[n]]
+        def eligible(n):
+            # the file must include a deeper file, stand at the top level of the main text and be balanced in itself
+            # (a file that closes or opens a section of its includer is legal, but where its trailing text "stands" is not
+            # something the property defines)
+            if "include(" not in files[n]:
+                return False
+            k = int(n[len("c13_f"):-len(".conf")])
+            a, b = intervals[k]
+            mk = [m_ for m_ in marks if m_["off"] == a]
+            if not mk or mk[0]["level"] != 0:
+                return False
+            from model_lex import lex as _lex
+            depth_ = 0
+            for tk in _lex(files[n]):
+                if tk.kind == "{":
+                    depth_ += 1
+                elif tk.kind == "}":
+                    depth_ -= 1
+                    if depth_ < 0:
+                        return False
+            return depth_ == 0
+        inter = [n for n in names if eligible(n)]
         ie = None
         if inter and depth <= 10:
             en = inter[0]
